@@ -180,6 +180,39 @@ Proof.
 Qed.
 Print Assumptions C18_kernels_agree.
 
+(* (8) the selection rule of the model IS the rule of the source: the per-thread "better than the best so far" test of every
+   weak-learner fit cache (affine, stump, both hinge sites, the three table sites) and the comparison of min_reduce, translated
+   on every run, are the strict `<` of the model.  One strict order inside a worker AND across workers is what makes the
+   selection a minimum (associative), hence ... *)
+Theorem C18_selection_rule_is_source : forall k,
+  (forall s b, better_src k s b = (s <? b)%Z) /\ (forall a b, src_c18_reduce_less a b = (a <? b)%Z) /  (forall c sf, cache_update_src k c sf = cache_update c sf) /  (forall n sched, fit_select_src k n sched = fit_select n sched).
+Proof.
+  intro k. split; [intros; apply better_src_strict|]. split; [intros; apply reduce_less_strict|].
+  split; [intros; apply cache_update_src_eq | intros; apply fit_select_src_eq].
+Qed.
+Print Assumptions C18_selection_rule_is_source.
+
+(* ... the selection computed WITH THE SOURCE'S COMPARISONS is the same for every assignment of features to workers, every
+   evaluation order and every two pool sizes, when no two features have exactly the same score *)
+Theorem C18_fit_select_src_schedule_independent : forall k n1 n2 (sched1 sched2 : list (nat * (Z * Z))),
+  Forall (fun a => fst a < n1) sched1 -> Forall (fun a => fst a < n2) sched2 ->
+  Permutation (map snd sched1) (map snd sched2) -> NoDup (map fst (map snd sched1)) ->
+  fit_select_src k n1 sched1 = fit_select_src k n2 sched2.
+Proof. intros k n1 n2 s1 s2 H1 H2 HP HN. rewrite !fit_select_src_eq. exact (s_fit_select_schedule_independent n1 n2 s1 s2 H1 H2 HP HN). Qed.
+Print Assumptions C18_fit_select_src_schedule_independent.
+
+(* a worker-side test that only accepts improvements larger than some epsilon (with the strict min_reduce) is NOT a minimum: two
+   features with DIFFERENT scores 10 and 9 are selected depending on whether they were evaluated by the same worker *)
+Theorem C18_epsilon_rule_refuted :
+  exists eps n (sched1 sched2 : list (nat * (Z * Z))),
+    Forall (fun a => fst a < n) sched1 /\ Forall (fun a => fst a < n) sched2 /    Permutation (map snd sched1) (map snd sched2) /\ NoDup (map fst (map snd sched1)) /    fit_select_eps eps n sched1 <> fit_select_eps eps n sched2.
+Proof.
+  exists 2%Z, 2, [(0, (10%Z, 0%Z)); (0, (9%Z, 1%Z))], [(0, (10%Z, 0%Z)); (1, (9%Z, 1%Z))].
+  split; [repeat constructor|]. split; [repeat constructor|]. split; [apply Permutation_refl|].
+  split; [cbn; repeat constructor; cbn; intuition discriminate|]. vm_compute. discriminate.
+Qed.
+Print Assumptions C18_epsilon_rule_refuted.
+
 (* ---------------------------------------------------------------------------------------------------------------- *)
 (* non-vacuity                                                                                                       *)
 (* ---------------------------------------------------------------------------------------------------------------- *)
@@ -278,3 +311,8 @@ Example C18_nonvacuous_workers :
   select_chunk 7 5 = 1%Z /\ select_chunk 8 3 = 3%Z /\ loop_inline 4 64 50 = true /\ loop_inline 4 10 50 = false /\
   loop_chunks 25 10 = [(0, 10); (10, 20); (20, 25)]%Z.
 Proof. vm_compute. repeat split. Qed.
+
+Example C18_nonvacuous_selection_rule :
+  fit_select_src WAffine 2 [(0, (10, 0)%Z); (1, (9, 1)%Z)] = Some (9, 1)%Z /  fit_select_src WAffine 1 [(0, (10, 0)%Z); (0, (9, 1)%Z)] = Some (9, 1)%Z /  fit_select_src (WTable 2) 3 [(2, (7, 0)%Z); (0, (8, 1)%Z); (2, (6, 2)%Z)] = Some (6, 2)%Z /  cache_update_src WStump (Some (5, 0)%Z) (5, 1)%Z = Some (5, 0)%Z /  fit_select_eps 2 1 [(0, (10, 0)%Z); (0, (9, 1)%Z)] = Some (10, 0)%Z.
+Proof. vm_compute. repeat split. Qed.
+
